@@ -13,29 +13,37 @@ type mapSliceValue struct {
 func (v mapSliceValue) Interface() any { return v.slice }
 
 func (v mapSliceValue) Contains(elem Value) bool {
-	e := elem.Interface()
-	for _, item := range v.slice {
-		if e == item.Key {
-			return true
-		}
-	}
-	return false
+	_, found := v.entry(elem)
+	return found
 }
 
 func (v mapSliceValue) IndexValue(index Value) Value {
-	e := index.Interface()
-	for _, item := range v.slice {
-		if e == item.Key {
-			return ValueOf(item.Value)
-		}
+	if value, found := v.entry(index); found {
+		return ValueOf(value)
 	}
 	return nilValue
 }
 
 func (v mapSliceValue) PropertyValue(index Value) Value {
-	result := v.IndexValue(index)
-	if result == nilValue && index.Interface() == sizeKey {
-		result = ValueOf(len(v.slice))
+	value, found := v.entry(index)
+	switch {
+	case found:
+		return ValueOf(value)
+	case index.Interface() == sizeKey:
+		return ValueOf(len(v.slice))
+	default:
+		return nilValue
 	}
-	return result
+}
+
+// entry returns the value of the first item whose key equals key. (A key decoded
+// from YAML can be a sequence or a mapping, which Go's == cannot compare.)
+func (v mapSliceValue) entry(key Value) (any, bool) {
+	k := key.Interface()
+	for _, item := range v.slice {
+		if Equal(k, item.Key) {
+			return item.Value, true
+		}
+	}
+	return nil, false
 }
